@@ -252,6 +252,13 @@ func genCasePool(c *Ctx, mode string) {
 	// justified by the local vote alone
 	nc := newNodeCase(c, mode, E, nVal, 0, 2)
 	defer nc.close()
+	// in half of the cases the blocks of the other proposers pay another coinbase program than
+	// the node's own proposer: epochs without a block of the node then have a reward table
+	// without the node's program
+	nc.altCoinbase = rng.Intn(2) == 0
+	if nc.altCoinbase {
+		c.Count("alt-coinbase-cases")
+	}
 	base := int(E) + 1 + int(consensus.CoinbasePendingBlockNumber) + rng.Intn(3)
 	tip := "b0"
 	for i := 0; i < base; i++ {
@@ -349,6 +356,12 @@ func genCasePool(c *Ctx, mode string) {
 			}
 		}
 	}
+	if !nc.dead && rng.Intn(2) == 0 {
+		nc.sharedTxReorg()
+	}
+	if !nc.dead && rng.Intn(2) == 0 {
+		nc.proposeAtEpochStart()
+	}
 	if !nc.dead {
 		nc.propose()
 	}
@@ -370,6 +383,68 @@ func genCasePool(c *Ctx, mode string) {
 // submitted, then the real proposer builds a block and the node must accept its own block.
 // A transaction with TimeRange == best height is fine for the pool (it is checked against the
 // best block) but expired for the next block: the proposer must leave it out.
+// sharedTxReorg: t1 and t2 are in the pool; A1 = [t1] extends the best block (t1 leaves the
+// pool), then the sibling branch B1 = [t1, t2], B2 = [] wins: the reorganisation attaches a block
+// that holds a transaction confirmed on BOTH branches in front of one that is still pooled.
+func (nc *nodeCase) sharedTxReorg() {
+	c := nc.c
+	bestName := nc.nm.name(nc.sut.chain.BestBlockHeader().Hash())
+	if _, ok := nc.nm.blocks[bestName]; !ok {
+		return
+	}
+	var txs []*txInfo
+	for try := 0; try < 8 && len(txs) < 2; try++ {
+		txs = nc.randomTxs(bestName)
+	}
+	if len(txs) < 2 {
+		c.Count("shared-tx-reorg:not-enough-txs")
+		return
+	}
+	for _, ti := range txs {
+		nc.submit(ti)
+	}
+	a1 := nc.defBlock(bestName, 0, 4, txs[:1])
+	if a1 == "" {
+		c.Count("shared-tx-reorg:a1-rejected-by-ref")
+		return
+	}
+	nc.deliver(a1)
+	b1 := nc.defBlock(bestName, 1, 5, txs)
+	if b1 == "" {
+		c.Count("shared-tx-reorg:b1-rejected-by-ref")
+		return
+	}
+	nc.deliver(b1)
+	if b2 := nc.defBlock(b1, 0, 5, nil); b2 != "" {
+		nc.deliver(b2)
+		c.Count("shared-tx-reorg-scenarios")
+	}
+}
+
+// proposeAtEpochStart: harness-made empty blocks extend the best chain until a whole epoch
+// consists of them and the next block is the first of an epoch; then the node proposes it
+// (with altCoinbase the closed epoch's reward table does not hold the node's own program).
+func (nc *nodeCase) proposeAtEpochStart() {
+	E := nc.env.E
+	for i := 0; i < int(2*E)+1 && !nc.dead; i++ {
+		best := nc.sut.chain.BestBlockHeader()
+		bestName := nc.nm.name(best.Hash())
+		if _, ok := nc.nm.blocks[bestName]; !ok {
+			return
+		}
+		if best.Height%E == 0 && i >= int(E) {
+			nc.c.Count("propose-at-epoch-start")
+			nc.propose()
+			return
+		}
+		name := nc.defBlock(bestName, 0, 6, nil)
+		if name == "" {
+			return
+		}
+		nc.deliver(name)
+	}
+}
+
 func (nc *nodeCase) proposeEpilogue() {
 	n := nc.sut
 	best := n.chain.BestBlockHeader()
